@@ -26,7 +26,8 @@ pub fn sweep_plans(seed: u64, restrict: &Restrict) -> SweepSet {
     let arm = arms::arm_by_name(&base.codec).unwrap();
     // value conversions without a seam have nothing to sweep; re-draw deterministically
     let mut s = seed;
-    while (arm_of(&base).seamless)(base.flavour) {
+    // (the sweep is quadratic in the encoding length: the giant width of the second set is left to the seeded stages)
+    while (arm_of(&base).seamless)(base.flavour) || base.bits > 5000 {
         s = s.wrapping_mul(6364136223846793005).wrapping_add(1442695040888963407);
         base = gen::gen_pipeline(s, &[Config::Control], restrict);
     }
